@@ -47,6 +47,7 @@ type Program struct {
 type stubEntry struct {
 	fn    *ssa.Function
 	files []string
+	dir   string // absolute directory of the package whose call sites are redirected (for files=*)
 }
 
 type StubSpec struct {
@@ -265,7 +266,7 @@ func LoadProgram(spec LoadSpec) (*Program, error) {
 					if stubFn == nil {
 						return nil, fmt.Errorf("stub function %s not found", fd.Name.Name)
 					}
-					P.stubs[parts[0]] = append(P.stubs[parts[0]], stubEntry{fn: stubFn, files: ss.Files})
+					P.stubs[parts[0]] = append(P.stubs[parts[0]], stubEntry{fn: stubFn, files: ss.Files, dir: filepath.Join(spec.RepoDir, ss.Dir)})
 				case "opt":
 					for _, p := range strings.Fields(m[2]) {
 						if kv := strings.SplitN(p, "=", 2); len(kv) == 2 {
